@@ -377,7 +377,7 @@ pub fn gen_replicas(prop: &str, r: &mut Prng, seed: u64, run: u64, thorough: boo
         }
         if p == PathKind::Builder {
             s.defaults = if prop == "C19" { true } else { std && !r.chance(1, 5) };
-            s.alt_names = matches!(prop, "C02" | "C10") && r.chance(1, 3);
+            s.alt_names = matches!(prop, "C02" | "C10" | "C03" | "C01" | "C19") && r.chance(1, 3);
         }
         if matches!(p, PathKind::Text | PathKind::TextTransitive) {
             // one text replica in eight: hp.obo without a header block (derived, not drawn: the other draws keep their values)
